@@ -129,7 +129,7 @@ def run(tier, seed):
     def tcp_ok(c):
         return all("\n" not in s.get("line", "") and "\r" not in s.get("line", "") for s in c["steps"])
     pool = [c for c in cases if tcp_ok(c)]
-    net = [dict(c, id="tcp_" + c["id"], transport="tcp") for c in rnd.sample(pool, min(len(pool), 300 if tier == "quick" else 6000))]
+    net = [dict(c, id="tcp_" + c["id"], transport="tcp") for c in rnd.sample(pool, min(len(pool), 300 if tier == "quick" else 3000))]
     cases += net
     by_id = {c["id"]: {"id": c["id"], "lines": [s["line"][:300] for s in c["steps"]]} for c in cases}
     raws = common.run_cases_parallel("seq", cases, wd, procs=14)
